@@ -197,7 +197,7 @@ def run(chk):
     # ------------------------------------------------------------------ building blocks
     N = 1 if tier == 'quick' else 20
     adds = ['+H+', '+Na+', '+2Na+', '+2Na-', 'H+', 'H-', '+Na+,+H+', '2H+', '-2H+', '0H+', '+e-', '-e-', '+3H+,+e-', '+Mg2+', '+2Mg+2',
-            '-Cl-', '+3I-', '+Ca+2,-2K+', 'Xx+', '+', '', '+Na', '+2Mg2-', '+H+,', '-1H+,+2H+,+e-']
+            '-Cl-', '+3I-', '+Ca+2,-2K+', 'Xx+', '+D+', '+T+,+H+', '+2D+', '+13C+', '+', '', '+Na', '+2Mg2-', '+H+,', '-1H+,+2H+,+e-']
     adds += [cm.gen_adducts(rng) for _ in range(300 * N)]
     adds += [f'{n}H+' for n in range(-9, 10)] + [f'{n - 1}H+,{b}' for n in range(-4, 7) for b in constants.FRAGMENT_ION_BASE_CHARGE_ADDUCTS.values()]
     ad_cases = [(s, m) for s in adds for m in (True, False)]
@@ -634,7 +634,10 @@ def run(chk):
         k0.pop('precision', None)
         k1 = dict(kw)
         k1.pop('precision', None)
-        base = pt.mass(a.copy(), **k0)
+        try:
+            base = pt.mass(a.copy(), **k0)
+        except ValueError:
+            return None           # not a valid input (e.g. a numeric charge-adduct group)
         with_loss = pt.mass(a.copy(), **k1)
         if abs(with_loss - base - kw['loss']) > 1e-6:
             return f'isotope-labelled: mass(loss={kw["loss"]}) - mass(loss=0) = {with_loss - base!r}'
@@ -930,7 +933,7 @@ def classify(f):
         a, kw = case_of(case)
         ad = kw.get('charge_adducts')
         if ad is None and a._charge_adducts:
-            ad = a._charge_adducts[0].val
+            ad = ','.join(str(m.val) for m in a._charge_adducts)
         if isinstance(ad, str) and _adduct_count_matters(ad):
             # re-check: the whole discrepancy must be the electron term of the adducts whose count is not +1,
             # i.e. sum over ions of charge * m_e * (count - 1); anything else is a different violation
